@@ -380,6 +380,8 @@ def check_c13(tier, seed):
     R = C.Result("C13", tier, seed)
     repo_dir = C.ensure_repo_build()
     lean_obligations(R, "C13", repo_dir)
+    from . import probes
+    probes.run(R, "C13", repo_dir, build_wire(C.ensure_tools()))
     try:
         S = migrate_stream(tier, seed)
         recs = S["recs"]
@@ -568,6 +570,8 @@ def check_c14(tier, seed):
     R = C.Result("C14", tier, seed)
     repo_dir = C.ensure_repo_build()
     lean_obligations(R, "C14", repo_dir)
+    from . import probes
+    probes.run(R, "C14", repo_dir, build_wire(C.ensure_tools()))
     cli = os.path.join(repo_dir, "kessoku")
     rng = G.SplitMix64(seed * 11 + 5)
     ws = Workspace("c14s%d" % seed)
